@@ -3,7 +3,6 @@
 //! `src::Src`, so the same function is the Kani proof obligation and the native replay program.
 #[macro_use]
 pub mod src;
-pub mod c02;
 pub mod c04;
 pub mod c07;
 pub mod c15;
@@ -23,7 +22,6 @@ pub type NativeHarness = fn(&mut Q);
 /// name -> native instantiation of every harness (used by /verif/replay)
 pub fn registry() -> Vec<(&'static str, NativeHarness)> {
     let mut v: Vec<(&'static str, NativeHarness)> = vec![];
-    v.extend(c02::registry());
     v.extend(c04::registry());
     v.extend(c07::registry());
     v.extend(c15::registry());
